@@ -110,51 +110,111 @@ fn split_member_target(
     span: &Span,
     ident_provider: &mut dyn IdentProvider,
 ) -> (AssignTarget, Box<Expr>) {
-    if let SimpleAssignTarget::Member(member) = left {
-        let key_is_simple = match &member.prop {
-            MemberProp::Computed(computed) => is_simple_target_part(&computed.expr),
-            _ => true,
-        };
-        if !is_simple_target_part(&member.obj) || !key_is_simple {
-            // an identifier can be rebound while the key is evaluated: it is only read again as it is
-            // when nothing runs in between
-            let obj_is_repeatable =
-                is_simple_target_part(&member.obj) && (key_is_simple || !member.obj.is_ident());
-            let (target_obj, operand_obj) = if obj_is_repeatable {
-                (member.obj.clone(), member.obj.clone())
-            } else {
-                hoist_target_part(&member.obj, span, ident_provider)
+    let (target, operand) = split_simple_target(left, span, ident_provider);
+    (AssignTarget::Simple(target), operand)
+}
+
+fn split_simple_target(
+    left: &SimpleAssignTarget,
+    span: &Span,
+    ident_provider: &mut dyn IdentProvider,
+) -> (SimpleAssignTarget, Box<Expr>) {
+    match left {
+        SimpleAssignTarget::Member(member) => {
+            let key_is_simple = match &member.prop {
+                MemberProp::Computed(computed) => is_simple_target_part(&computed.expr),
+                _ => true,
             };
-            let (target_prop, operand_prop) = match &member.prop {
-                MemberProp::Computed(computed) if !is_simple_target_part(&computed.expr) => {
-                    let (target_key, operand_key) =
-                        hoist_target_part(&computed.expr, span, ident_provider);
-                    (
-                        MemberProp::Computed(ComputedPropName {
-                            span: computed.span,
-                            expr: target_key,
-                        }),
-                        MemberProp::Computed(ComputedPropName {
-                            span: computed.span,
-                            expr: operand_key,
-                        }),
-                    )
-                }
-                prop => (prop.clone(), prop.clone()),
-            };
-            return (
-                AssignTarget::Simple(SimpleAssignTarget::Member(MemberExpr {
-                    span: member.span,
-                    obj: target_obj,
-                    prop: target_prop,
-                })),
-                Box::new(Expr::Member(MemberExpr {
-                    span: member.span,
-                    obj: operand_obj,
-                    prop: operand_prop,
-                })),
-            );
+            if !is_simple_target_part(&member.obj) || !key_is_simple {
+                // an identifier can be rebound while the key is evaluated: it is only read again as
+                // it is when nothing runs in between
+                let obj_is_repeatable =
+                    is_simple_target_part(&member.obj) && (key_is_simple || !member.obj.is_ident());
+                let (target_obj, operand_obj) = if obj_is_repeatable {
+                    (member.obj.clone(), member.obj.clone())
+                } else {
+                    hoist_target_part(&member.obj, span, ident_provider)
+                };
+                let (target_prop, operand_prop) = match &member.prop {
+                    MemberProp::Computed(computed) if !is_simple_target_part(&computed.expr) => {
+                        let (target_key, operand_key) =
+                            split_computed_key(computed, span, ident_provider);
+                        (
+                            MemberProp::Computed(target_key),
+                            MemberProp::Computed(operand_key),
+                        )
+                    }
+                    prop => (prop.clone(), prop.clone()),
+                };
+                return (
+                    SimpleAssignTarget::Member(MemberExpr {
+                        span: member.span,
+                        obj: target_obj,
+                        prop: target_prop,
+                    }),
+                    Box::new(Expr::Member(MemberExpr {
+                        span: member.span,
+                        obj: operand_obj,
+                        prop: operand_prop,
+                    })),
+                );
+            }
         }
+        // `super[k()] += s` must evaluate `k()` once
+        SimpleAssignTarget::SuperProp(super_prop) => {
+            if let SuperProp::Computed(computed) = &super_prop.prop {
+                if !is_simple_target_part(&computed.expr) {
+                    let (target_key, operand_key) =
+                        split_computed_key(computed, span, ident_provider);
+                    return (
+                        SimpleAssignTarget::SuperProp(SuperPropExpr {
+                            span: super_prop.span,
+                            obj: super_prop.obj,
+                            prop: SuperProp::Computed(target_key),
+                        }),
+                        Box::new(Expr::SuperProp(SuperPropExpr {
+                            span: super_prop.span,
+                            obj: super_prop.obj,
+                            prop: SuperProp::Computed(operand_key),
+                        })),
+                    );
+                }
+            }
+        }
+        // `(o().p) += s`: a parenthesised member target is split like the target it wraps
+        SimpleAssignTarget::Paren(paren)
+            if paren.expr.is_member() || paren.expr.is_super_prop() || paren.expr.is_paren() =>
+        {
+            if let Ok(inner) = SimpleAssignTarget::try_from(paren.expr.clone()) {
+                let (target, operand) = split_simple_target(&inner, span, ident_provider);
+                return (
+                    SimpleAssignTarget::Paren(ParenExpr {
+                        span: paren.span,
+                        expr: target.into(),
+                    }),
+                    operand,
+                );
+            }
+        }
+        _ => {}
     }
-    (AssignTarget::Simple(left.clone()), left.clone().into())
+    (left.clone(), left.clone().into())
+}
+
+fn split_computed_key(
+    computed: &ComputedPropName,
+    span: &Span,
+    ident_provider: &mut dyn IdentProvider,
+) -> (ComputedPropName, ComputedPropName) {
+    let (target_key, operand_key) = hoist_target_part(&computed.expr, span, ident_provider);
+    (
+        ComputedPropName {
+            span: computed.span,
+            expr: target_key,
+        },
+        ComputedPropName {
+            span: computed.span,
+            expr: operand_key,
+        },
+    )
 }
